@@ -154,10 +154,17 @@ fn eval(w: i32, h: i32, dst: &Dst, ops: &[Op], nhist: usize) -> Result<(SceneSta
                 }
                 // with three or more paths the association order may differ by one unit: re-check leniently
                 let lenient = eff.cov.as_ref().map_or(false, |c| c.iter().any(|x| x.len() > 1));
-                if lenient && v.kind == Kind::WrongValue {
-                    st.foreign = true;
-                    break;
-                }
+                let v = if lenient && v.kind == Kind::WrongValue {
+                    match take_others().into_iter().find(|o| o.kind != Kind::WrongValue) {
+                        Some(o) => o,
+                        None => {
+                            st.foreign = true;
+                            break;
+                        }
+                    }
+                } else {
+                    v
+                };
                 return Err(Violation::new(format!("probe/{}/{}", prop_kind(&v.kind), v.clause), case, format!("probe step {} ({}) under the model's clip (rect {:?}, {}): {}\n{}", k, op.kind(), eff.rect, if eff.mask.is_some() { "path coverage product" } else { "no path" }, v.clause, v.detail)));
             }
         }
